@@ -101,6 +101,23 @@ func TestVerifGlob(t *testing.T) {
 		try([]string{p}, []string{"\n", "a\nb", "a\n", "\nb", "a\n/b", "a/\nb", "ab", "a"})
 		try([]string{"x", p}, []string{"\n", "a\nb", "x"})
 	}
+	// histories: what a list matches does not depend on the lists compiled before it in the same
+	// process. Lists whose spellings coincide when joined with a separator, in both orders.
+	for i, sep := range []string{"|", ",", " ", ":", ";", "\x00", "\n", ")|(", "|^", "$|"} {
+		a, b := "s"+strconv.Itoa(i), "g*"
+		joined := a + sep + b
+		ps := []string{joined, a, b, "g" + strconv.Itoa(i), a + sep + "gx", "x"}
+		if i%2 == 0 {
+			try([]string{joined}, ps)
+			try([]string{a, b}, ps)
+		} else {
+			try([]string{a, b}, ps)
+			try([]string{joined}, ps)
+		}
+		try([]string{joined, a}, ps)
+		try([]string{a, b, joined}, ps)
+		try([]string{joined}, ps)
+	}
 	shortPaths := strs(salpha, min(slen, 3))[1:]
 	p2 := strs(palpha, plen2)[1:]
 	for _, a := range p2 {
